@@ -35,6 +35,10 @@ CHECKS = {
    "table programs over boundary grids and rapid-drawn arguments for the exactly defined math functions, math/bits and sync/atomic; documented special cases of the JavaScript-delegating math functions; unicode case mapping/folding/predicates for every rune; rapid-generated sequential histories over sync/atomic values and over the nosync primitives (native side runs the real sync package, contended operations predicted by a model must panic) - all compared with the native run",
    "trusts the native Go toolchain (upstream implementations) as reference; transcendental functions are compared only on documented special cases; int/uint/uintptr-width-dependent arguments are excluded",
    "property-based differential testing (rapid-generated argument tables and operation histories, exhaustive rune enumeration) with native Go as oracle"),
+ "C11": ("exploration",
+   "self-checking generated programs under Node (plain and minified): rapid-generated (Go type, value) pairs over the documented conversion table pushed through argument, property, index, return-value and Interface() paths and described structurally on the JavaScript side; expectations are computed by the harness from the js package documentation; fixed scenario families with generated values cover tagged wrapper structs, typed accessors, exposed functions, MakeFunc, MakeWrapper, function identity and the blocking-callback guard",
+   "expectations exist only for documented conversions (time.Time and DOM Node rows cannot be built here); Node's typeof/constructor/Object.is are trusted",
+   "property-based testing with a documentation-derived oracle and round-trip relation (rapid)"),
 }
 PENDING_REASON = "check not built yet in this session (work in progress; see DESIGN.md §8 for the order)"
 props=[json.loads(l)['id'] for l in open('/verif/properties.jsonl')]
